@@ -2,7 +2,8 @@
 """Regenerates /verif/MANIFEST.json from checks.json (single source of per-check metadata)."""
 import json, os
 ROOT = os.path.dirname(os.path.dirname(os.path.abspath(__file__)))
-cfg = json.load(open(os.path.join(ROOT, "checks.json")))
+import glob
+cfg = {os.path.basename(os.path.dirname(f)).upper(): json.load(open(f)) for f in glob.glob(os.path.join(ROOT, "harness", "c[0-9][0-9]", "check.json"))}
 props = [json.loads(l) for l in open(os.path.join(ROOT, "properties.jsonl"))]
 checks, na = [], []
 for p in props:
